@@ -770,7 +770,18 @@ func c16Netmap(rt *rapid.T, h *ev.History, v int64) {
 	steps := rapid.IntRange(1, 14).Draw(rt, "steps")
 	marker := 0
 	for s := 0; s < steps; s++ {
-		switch rapid.SampledFrom([]string{"add", "add", "tick", "tick", "tick", "remove", "config", "count"}).Draw(rt, "op") {
+		switch rapid.SampledFrom([]string{"add", "add", "tick", "tick", "tick", "remove", "config", "count", "deep-history"}).Draw(rt, "op") {
+		case "deep-history":
+			// a history deeper than the default of 10 maps, completely filled (every slot of the ring holds a map)
+			cnt := int64(rapid.IntRange(11, 13).Draw(rt, "deepCount"))
+			w.c.Invoke(w.alpha, w.nm, "updateSnapshotCount", cnt)
+			marker++
+			w.c.Invoke(w.alpha, w.nm, "addPeerIR", legacyInfo(w.pub(rapid.IntRange(0, 3).Draw(rt, "node")), marker))
+			for i := int64(0); i < cnt+1; i++ {
+				epoch++
+				w.c.Invoke(w.alpha, w.nm, "newEpoch", epoch)
+			}
+			h.Mark("netmap-history-deeper-than-default")
 		case "add":
 			marker++
 			w.c.Invoke(w.alpha, w.nm, "addPeerIR", legacyInfo(w.pub(rapid.IntRange(0, 3).Draw(rt, "node")), marker))
